@@ -265,7 +265,9 @@ theorem vwlb_header_is_generated_layout (dec : Dec) (d : Bytes) :
 
 theorem vwlb_entry_is_generated_layout (dec : Dec) (d : Bytes) (mnidx n indx : Nat) :
     vwlbLoop dec d mnidx (n + 1) indx = Layout.readK .be d indx Gen.IdxLayouts.vwlbEntry fun
-      | [frame, nameStart, nameEnd] => (dec (slice d (mnidx + nameStart.toNat) (mnidx + nameEnd.toNat))).bind fun name =>
+      | [frame, nameStart, nameEnd] =>
+          if mnidx + nameEnd.toNat < mnidx + nameStart.toNat then .error .value else
+          (dec (slice d (mnidx + nameStart.toNat) (mnidx + nameEnd.toNat))).bind fun name =>
           (vwlbLoop dec d mnidx n (indx + 4)).bind fun rest => .ok (⟨name, frame⟩ :: rest)
       | _ => .error .other := vwlbLoop_succ_eq_layout dec d mnidx n indx
 
@@ -309,9 +311,9 @@ theorem lctx_shape_is_generated : Gen.IdxLayouts.lctxShape =
 theorem lnam_shape_is_generated : Gen.IdxLayouts.lnamShape =
     [("order", "param"), ("order_symbol", ">"), ("guard:0", "h12 != h8"), ("loop", "for"), ("count", "h18"), ("entry:p", "20"), ("stride:p", "e0+1"), ("slice:0", "fdata[p+1:p+e0+1].decode(get_encoding())")] := by decide
 
-/-- vwlb.py: big-endian; `<field at 0>` records from 2, 4 bytes apart; label = `fdata[mnidx + off_i : mnidx + off_(i+1)]` with `mnidx = 4*n + 6`, read with get_encoding() -/
+/-- vwlb.py: big-endian; `<field at 0>` records from 2, 4 bytes apart; label = `fdata[mnidx + off_i : mnidx + off_(i+1)]` with `mnidx = 4*n + 6`, read with get_encoding(); decreasing offsets are rejected (fix F51) -/
 theorem vwlb_shape_is_generated : Gen.IdxLayouts.vwlbShape =
-    [("order", ">"), ("loop", "for"), ("count", "h0"), ("entry:p", "2"), ("stride:p", "4"), ("slice:0", "fdata[e2:e6].decode(get_encoding())"), ("derived:e2", "4*h0+6+<e2>"), ("derived:e6", "4*h0+6+<e6>")] := by decide
+    [("order", ">"), ("loop", "for"), ("count", "h0"), ("entry:p", "2"), ("stride:p", "4"), ("slice:0", "fdata[e2:e6].decode(get_encoding())"), ("derived:e2", "4*h0+6+<e2>"), ("derived:e6", "4*h0+6+<e6>"), ("guard:0", "e6 < e2")] := by decide
 
 /-- vwcf.py: big-endian words + one byte; the size word must equal `len(fdata)`; the palette word is read only in the dir4 / dir5 arms -/
 theorem vwcf_shape_is_generated : Gen.IdxLayouts.vwcfShape =
